@@ -86,10 +86,19 @@ def check_list(bdir, cwd, form, mods):
     if unknown:
         rows.append(("flag-listing-unknown-name:%s" % unknown[0], "%s: listing contains %r" % (arg, unknown), rp))
     gs = frozenset(got)
-    if gs != exp:
-        missing, extra = sorted(exp - gs), sorted(gs - exp)
-        rows.append(("flag-listing-wrong:list=%s:%s" % (sh, "+".join((["missing"] if missing else []) + (["extra"] if extra else []))),
-                     "%s: expected exactly %s; missing %s, extra %s" % (arg, sorted(exp), missing, extra), rp))
+    for nm in sorted((exp - gs) | (gs - exp)):
+        # the failing class is the history of operations applied to the wrongly listed / wrongly absent name
+        ops = [m[0] for m in mods if m[1:] == nm]
+        kind = "missing" if nm in exp else "extra"
+        std = "std" if nm in pu.STANDARD_NAMES else "nonstd"
+        if not ops:
+            key = "flag-listing-wrong:%s:untouched:%s" % (nm, kind)
+        elif len(ops) == 1:
+            key = "flag-listing-wrong:%s:ops=%s:%s" % (nm, ops[0], kind)
+        else:
+            key = "flag-listing-wrong:%s:ops=%s:%s" % (std, ",".join(ops), kind)
+        rows.append((key, "%s: %s is %s; expected exactly %s, listed %s" % (arg, nm, "not listed" if kind == "missing" else "listed but must be absent",
+                                                                          ",".join(n for n in NAMES if n in exp), ",".join(got)), rp))
     return "accepted", rows, gs
 
 
@@ -99,7 +108,12 @@ def work_lists(a):
     os.makedirs(cwd, exist_ok=True)
     hist, rows, sets, samples = {}, [], set(), []
     for form, mods in items:
+        if pu.hang_abort(scratch):
+            hist["skipped-after-hangs"] = hist.get("skipped-after-hangs", 0) + 1
+            continue
         oc, rs, gs = check_list(bdir, cwd, form, mods)
+        if oc == "hang":
+            pu.hang_abort(scratch, True)
         hist[oc] = hist.get(oc, 0) + 1
         for k, w, rp in rs:
             rows.append((k, w, rp, "%04d%s" % (len(",".join(mods)), ",".join(mods))))
@@ -159,8 +173,13 @@ def work_malformed(a):
     os.makedirs(cwd, exist_ok=True)
     hist, rows, n = {}, [], 0
     for cls, lst in items:
+        if pu.hang_abort(scratch):
+            hist["skipped-after-hangs"] = hist.get("skipped-after-hangs", 0) + 1
+            continue
         oc, rs = check_malformed(bdir, cwd, cls, lst)
         n += 1
+        if oc == "hang":
+            pu.hang_abort(scratch, True)
         hist[cls + ":" + oc] = hist.get(cls + ":" + oc, 0) + 1
         if asan_dir and cls == "long-name":
             oc2, rs2 = check_malformed(bdir, cwd, cls, lst, exe_dir=asan_dir, tag=" [ASan build]")
@@ -356,7 +375,8 @@ def run(ctx):
         "transitions": nproc,
         "traces_validated_against_impl": hist.get("accepted", 0) + mal_rejected + dseen,
         "samples": (samples[:6] + ["--modify-flags=+p2sh -> rejected"]) or ["(none)"],
-        "exhaustive": True,
+        "exhaustive": not (hist.get("skipped-after-hangs", 0) or mh.get("skipped-after-hangs", 0)),
+        "skipped_after_hangs": hist.get("skipped-after-hangs", 0) + mh.get("skipped-after-hangs", 0),
         "bounds": dict(bounds, malformed_lists=len(mal), malformed_classes=sorted({c for c, _ in mal}),
                        long_name_lengths=[127, 128, 129, 200], asan_long_name_runs=bool(asan_dir),
                        default_flags_runs=n, probes=[p["flag"] for p in prs]),
@@ -377,7 +397,7 @@ def run(ctx):
                     "the 128-byte buffer of svf_parse_flags is exercised with 127/128/129/200-character names; silent overflow without a crash is only visible to the sanitizer build (C15)",
                 ],
                 summary="%d well-formed lists (%d distinct sets), %d malformed, %d probes, %d process runs" % (len(items), len(sets), len(mal), 2 * len(prs), nproc),
-                infra_error="; ".join(vac) if vac else None)
+                infra_error="; ".join(vac) if (vac and not V.d) else None)
 
 
 def _replay_once(ctx, scratch, rp):
